@@ -276,6 +276,16 @@ def main(rec):
     banner = {'latin1': b'c r\xe9solveur version 1.0 \xa9\n', 'utf8': 'c r\u00e9solveur \u2713\n'.encode('utf-8'),
               'none': b''}[g('banner', 'none')]
 
+    if g('err', '0') == '1':
+        # what a solver says on its standard error is no part of its answer:
+        # a version line, a timing line, and lines that LOOK like an answer --
+        # the opposite one
+        wrong = b's UNSATISFIABLE\n' if sat else b's SATISFIABLE\nv 1 0\n'
+        try:
+            os.write(2, b'version 2.3.5\nsolving time 0.01 s\nwarning: stand-in on stderr\n' + wrong)
+        except OSError:
+            pass
+
     if fam == 'so':
         if ans == 'silent':
             finish(1)
@@ -601,13 +611,13 @@ SO_DEV = [
     ('perline', '1'), ('perline', '2'), ('order', 'desc'), ('order', 'rot'),
     ('com', '1'), ('com', '2'), ('blank', '1'), ('term', 'own'), ('vfirst', '1'),
     ('crlf', '1'), ('sp', '1'), ('omit', '1'), ('exit', '0'),
-    ('banner', 'latin1'), ('banner', 'utf8'),
+    ('banner', 'latin1'), ('banner', 'utf8'), ('err', '1'),
 ]
 FO_DEV = [
     ('perline', '1'), ('perline', '2'), ('order', 'desc'), ('order', 'rot'),
     ('blank', '1'), ('term', 'own'), ('crlf', '1'), ('sp', '1'), ('omit', '1'),
     ('exit', '0'), ('nonl', '1'), ('lead', '1'),
-    ('banner', 'latin1'), ('banner', 'utf8'),
+    ('banner', 'latin1'), ('banner', 'utf8'), ('err', '1'),
 ]
 SO_COMBOS = [
     {'perline': '2', 'com': '1', 'blank': '1'},
@@ -1012,6 +1022,14 @@ def execute(case, env, names):
         fds0 = _open_descriptors()
         sys.stderr = io.StringIO()
         inj = FaultyPopen(fault) if fault is not None or case.get('count_popen') else None
+        saved2 = None
+        if 'err=1' in (case.get('shape') or ''):
+            # the children inherit descriptor 2: keep their chatter off the
+            # report of the check
+            saved2 = os.dup(2)
+            dn = os.open(os.devnull, os.O_WRONLY)
+            os.dup2(dn, 2)
+            os.close(dn)
         try:
             if inj is not None:
                 inj.__enter__()
@@ -1020,6 +1038,9 @@ def execute(case, env, names):
             if inj is not None:
                 inj.__exit__()
             sys.stderr = env._saved_stderr
+            if saved2 is not None:
+                os.dup2(saved2, 2)
+                os.close(saved2)
         if inj is not None:
             obs.setdefault('popen', {})[tag] = list(inj.calls)
         after = env.snapshot()
